@@ -646,4 +646,222 @@ theorem valueAtRank_orderStat {h0 : Hist} (wf : WF h0)
   rw [highestEquiv_repr wfH vp, e1, e2, ← highestEquiv_eq, ← hH]
   rfl
 
+/-! ### merging histograms of the same configuration -/
+
+theorem pre_le_sum (c : List Int) (hn : ∀ x ∈ c, 0 ≤ x) (k : Nat) : pre c k ≤ c.sum := by
+  induction c generalizing k with
+  | nil => simp [pre]
+  | cons a c ih =>
+    cases k with
+    | zero =>
+      simp only [pre, List.take_zero, List.sum_nil, List.sum_cons]
+      have h0 := ih (fun x hx => hn x (List.mem_cons_of_mem _ hx)) 0
+      simp only [pre, List.take_zero, List.sum_nil] at h0
+      have := hn a (List.mem_cons_self ..)
+      omega
+    | succ k =>
+      have := ih (fun x hx => hn x (List.mem_cons_of_mem _ hx)) k
+      simp only [pre, List.take_succ_cons, List.sum_cons] at this ⊢
+      omega
+
+/-- once the prefix sum has reached the total, the remaining counts are zero -/
+theorem tail_zero (c : List Int) (hn : ∀ x ∈ c, 0 ≤ x) (j : Nat) (hj : c.sum ≤ pre c j) :
+    ∀ i, j ≤ i → c.getD i 0 = 0 := by
+  induction c generalizing j with
+  | nil => intro i _; simp
+  | cons a c ih =>
+    intro i hji
+    have ha := hn a (List.mem_cons_self ..)
+    have hn' : ∀ x ∈ c, 0 ≤ x := fun x hx => hn x (List.mem_cons_of_mem _ hx)
+    cases j with
+    | zero =>
+      simp only [pre, List.take_zero, List.sum_nil, List.sum_cons] at hj
+      have h0 := pre_le_sum c hn' 0
+      simp only [pre, List.take_zero, List.sum_nil] at h0
+      have hs : c.sum = 0 := by omega
+      have ha0 : a = 0 := by omega
+      cases i with
+      | zero => simp [ha0]
+      | succ i =>
+        simp only [List.getD_cons_succ]
+        exact ih hn' 0 (by simp [pre, hs]) i (Nat.zero_le _)
+    | succ j =>
+      cases i with
+      | zero => omega
+      | succ i =>
+        simp only [List.getD_cons_succ]
+        apply ih hn' j _ i (by omega)
+        simp only [pre, List.take_succ_cons, List.sum_cons] at hj ⊢
+        omega
+
+/-- the step function of `Merge` -/
+def mergeStep (acc : Hist × Int) (p : IterPos) : Hist × Int :=
+  match recordValues acc.1 p.valueFrom p.countAt with
+  | some h' => (h', acc.2)
+  | none => (acc.1, acc.2 + p.countAt)
+
+theorem merge_eq (h g : Hist) :
+    merge h g = ((iter g).filter (fun p => p.countAt ≠ 0)).foldl mergeStep (h, 0) := rfl
+
+/-- `g` with other counts and total -/
+def withCounts (g : Hist) (c : List Int) (t : Int) : Hist := { g with counts := c, total := t }
+
+theorem getD_modify_add (c : List Int) (j : Nat) (n : Int) (hj : j < c.length) (i : Nat) :
+    (c.modify j (· + n)).getD i 0 = c.getD i 0 + (if i = j then n else 0) := by
+  rw [List.getD_eq_getElem?_getD, List.getD_eq_getElem?_getD, List.getElem?_modify]
+  by_cases hi : j = i
+  · subst hi
+    have : c[j]? = some (c[j]'hj) := List.getElem?_eq_getElem hj
+    simp [this]
+  · have hi' : ¬ i = j := fun h => hi h.symm
+    cases hci : c[i]? <;> simp [hi, hi']
+
+/-- folding `Merge`'s step over the positions from index `j` on adds the argument's counts from
+index `j` on, and drops nothing, when both histograms have the same configuration -/
+theorem merge_fold {g : Hist} (wf : WF g) (hlen : g.counts.length = g.countsLen)
+    (hn : ∀ x ∈ g.counts, 0 ≤ x) (hsum : g.counts.sum = g.total) :
+    ∀ (fuel b : Nat) (s : Int) (j : Nat) (c : List Int) (t d : Int),
+      St (2 ^ g.halfMag) b s j → c.length = g.countsLen → g.countsLen + 1 ≤ fuel + j →
+      ∃ c', ((iterFrom fuel g b s (pre g.counts j)).filter (fun p => p.countAt ≠ 0)).foldl mergeStep
+            (withCounts g c t, d) = (withCounts g c' (t + (g.total - pre g.counts j)), d) ∧
+        c'.length = g.countsLen ∧
+        ∀ i, c'.getD i 0 = c.getD i 0 + (if j ≤ i then g.counts.getD i 0 else 0) := by
+  intro fuel
+  induction fuel with
+  | zero =>
+    intro b s j c t d _ hc hf
+    have hj : g.counts.length ≤ j := by omega
+    refine ⟨c, ?_, hc, ?_⟩
+    · simp only [iterFrom, List.filter_nil, List.foldl_nil]
+      rw [pre_all _ hj, hsum]; simp
+    · intro i
+      split
+      · have : g.counts.getD i 0 = 0 := by
+          rw [List.getD_eq_getElem?_getD, List.getElem?_eq_none (by omega)]; rfl
+        rw [this]; omega
+      · omega
+  | succ fuel ih =>
+    intro b s j c t d st hc hf
+    have hple := pre_le_sum g.counts hn j
+    unfold iterFrom
+    by_cases hstop : pre g.counts j ≥ g.total
+    · rw [if_pos hstop]
+      refine ⟨c, ?_, hc, ?_⟩
+      · simp only [List.filter_nil, List.foldl_nil]
+        have : g.total - pre g.counts j = 0 := by omega
+        rw [this]; simp
+      · intro i
+        split
+        · rename_i hji
+          rw [tail_zero g.counts hn j (by omega) i hji]; simp
+        · simp
+    · rw [if_neg hstop]
+      obtain ⟨h0, hix, hs2, hup, st'⟩ := st_step (Nat.two_pow_pos _) st
+      dsimp only
+      rw [wf.subCount_eq, wf.halfCount_eq, show (2 : Nat) ^ (g.halfMag + 1) = 2 ^ g.halfMag * 2 from Nat.pow_succ ..]
+      generalize hbs : (if s + 1 ≥ ((2 ^ g.halfMag * 2 : Nat) : Int) then (b + 1, ((2 ^ g.halfMag : Nat) : Int)) else (b, s + 1)) = bs at *
+      obtain ⟨b1, s1⟩ := bs
+      simp only at h0 hix hs2 hup st' ⊢
+      have hjlt : j < g.countsLen := by
+        apply Classical.byContradiction
+        intro hge
+        have : pre g.counts j = g.counts.sum := pre_all _ (by omega)
+        omega
+      have hpos : 0 < 2 ^ g.halfMag := Nat.two_pow_pos _
+      have hb1 : b1 < g.bucketCount := by
+        have hcl := wf.countsLen_eq
+        rcases Nat.eq_zero_or_pos b1 with hz | hp
+        · have := wf.bucket_pos; omega
+        · have hge := hup hp
+          apply Classical.byContradiction
+          intro hnb
+          have : (g.bucketCount + 1) * 2 ^ g.halfMag ≤ b1 * 2 ^ g.halfMag + 2 ^ g.halfMag := by
+            rw [Nat.add_mul, Nat.one_mul]
+            exact Nat.add_le_add_right (Nat.mul_le_mul_right _ (by omega)) _
+          omega
+      rw [if_neg (by omega)]
+      have hs2' : s1.toNat < 2 ^ (g.halfMag + 1) := by rw [Nat.pow_succ]; exact hs2
+      have vp : ValidPos g b1 s1.toNat := ⟨hb1, hs2', hup⟩
+      have hcount : getCountAt g b1 s1.toNat = g.counts.getD j 0 := by
+        unfold getCountAt countsIndex
+        simp only [Nat.shiftLeft_eq, wf.halfCount_eq]
+        have e : (((b1 + 1) * 2 ^ g.halfMag : Nat) : Int) + ((s1.toNat : Int) - ((2 ^ g.halfMag : Nat) : Int)) = (j : Int) := by
+          rw [← hix, Nat.add_mul]; push_cast; omega
+        rw [e, if_neg (by omega)]; simp
+      have hpre : pre g.counts j + g.counts.getD j 0 = pre g.counts (j + 1) := (pre_succ _ _).symm
+      rw [hcount, hpre]
+      simp only [List.filter_cons]
+      by_cases hz : g.counts.getD j 0 = 0
+      · -- an empty position is skipped
+        simp only [hz, ne_eq, not_true_eq_false, decide_false]
+        obtain ⟨c', e, hl, hg⟩ := ih b1 s1 (j + 1) c t d st' hc (by omega)
+        refine ⟨c', ?_, hl, ?_⟩
+        · simp only [Bool.false_eq_true, if_false]
+          rw [e, ← hpre, hz]; simp
+        · intro i
+          rw [hg i]
+          by_cases hij : i = j
+          · subst hij; rw [if_neg (by omega), if_pos (Nat.le_refl _), hz]
+          · by_cases h1 : j ≤ i
+            · simp [h1, show j + 1 ≤ i by omega]
+            · simp [h1, show ¬ j + 1 ≤ i by omega]
+      · -- a non-empty position is re-recorded at its own index
+        simp only [ne_eq, hz, not_false_eq_true, decide_true, if_true, List.foldl_cons]
+        obtain ⟨_, e1, e2⟩ := repr_pos wf vp
+        have hidx : countsIndexFor g (valueFromIndex g b1 s1.toNat) = (j : Int) := by
+          rw [countsIndexFor_eq wf, e1, e2, hix]
+        have hstep : mergeStep (withCounts g c t, d)
+            { b := b1, s := s1.toNat, countAt := g.counts.getD j 0, countTo := pre g.counts (j + 1),
+              valueFrom := valueFromIndex g b1 s1.toNat,
+              highest := highestEquiv g (valueFromIndex g b1 s1.toNat) } =
+            (withCounts g (c.modify j (· + g.counts.getD j 0)) (t + g.counts.getD j 0), d) := by
+          unfold mergeStep recordValues
+          simp only [withCounts]
+          rw [if_neg (by omega)]
+          have hidx' : countsIndexFor
+              { lowest := g.lowest, highest := g.highest, unitMag := g.unitMag, sigfigs := g.sigfigs,
+                halfMag := g.halfMag, halfCount := g.halfCount, mask := g.mask, subCount := g.subCount,
+                bucketCount := g.bucketCount, countsLen := g.countsLen, total := t, counts := c }
+              ((valueFromIndex g b1 s1.toNat : Nat) : Int).toNat = (j : Int) := by
+            rw [Int.toNat_natCast]; exact hidx
+          simp only [hidx']
+          rw [if_neg (by omega)]
+          simp [listModify]
+        rw [hstep]
+        obtain ⟨c', e, hl, hg⟩ := ih b1 s1 (j + 1) (c.modify j (· + g.counts.getD j 0)) (t + g.counts.getD j 0) d st'
+          (by rw [List.length_modify]; exact hc) (by omega)
+        refine ⟨c', ?_, hl, ?_⟩
+        · rw [e, ← hpre]; congr 2; omega
+        · intro i
+          rw [hg i, getD_modify_add _ _ _ (by omega)]
+          by_cases hij : i = j
+          · subst hij; rw [if_pos rfl, if_neg (by omega), if_pos (Nat.le_refl _)]; omega
+          · by_cases h1 : j ≤ i
+            · simp [hij, h1, show j + 1 ≤ i by omega]
+            · simp [hij, h1, show ¬ j + 1 ≤ i by omega]
+
+/-- **merging a histogram of the same configuration adds its counts and drops nothing** -/
+theorem merge_same {g : Hist} (wf : WF g) (hlen : g.counts.length = g.countsLen)
+    (hn : ∀ x ∈ g.counts, 0 ≤ x) (hsum : g.counts.sum = g.total) (c : List Int) (t : Int)
+    (hc : c.length = g.countsLen) :
+    ∃ c', merge (withCounts g c t) g = (withCounts g c' (t + g.total), 0) ∧ c'.length = g.countsLen ∧
+      ∀ i, c'.getD i 0 = c.getD i 0 + g.counts.getD i 0 := by
+  have hp0 : pre g.counts 0 = 0 := by simp [pre]
+  obtain ⟨c', e, hl, hg⟩ := merge_fold wf hlen hn hsum (g.countsLen + 2) 0 (-1) 0 c t 0
+    (st_init _ (Nat.two_pow_pos _)) hc (by omega)
+  refine ⟨c', ?_, hl, ?_⟩
+  · rw [merge_eq]
+    unfold iter
+    rw [hp0] at e
+    rw [e]; simp
+  · intro i; rw [hg i]; simp
+
+theorem ext_getD {a b : List Int} (hl : a.length = b.length) (h : ∀ i, a.getD i 0 = b.getD i 0) : a = b := by
+  apply List.ext_getElem hl
+  intro i h1 h2
+  have := h i
+  rw [List.getD_eq_getElem?_getD, List.getD_eq_getElem?_getD, List.getElem?_eq_getElem h1,
+    List.getElem?_eq_getElem h2] at this
+  simpa using this
+
 end Ftdc.Hdr
